@@ -20,7 +20,9 @@ RULE = ("real ClientPlayback addon (client_replay_concurrency=1) inside the real
         "some edited by the user after a backup; unreplayable: live, intercepted, missing content, TCP, UDP, DNS, WebSocket); "
         "a seeded timeline of replay.client submissions (any subsets, re-submissions), replay.client.stop commands, user "
         "edits and sleeps, against per-flow origin behaviour (connect ok/slow/refused/timeout, response latency, RST, FIN, "
-        "truncated or garbage response) and optional async hook latency; non-trivial = at least two replays started or a "
+        "truncated or garbage response), optional async hook latency and an optional intercepting addon (flow.intercept() "
+        "in the response / error / request-side hook of replayed flows, resumed or killed after 0-3 s of virtual time); "
+        "non-trivial = at least two replays started or a "
         "stop removed a queued flow; distinct = distinct abstract event logs")
 COMPONENTS_REAL = ["Master", "AddonManager", "CommandManager", "ClientPlayback addon", "ReplayHandler/ConnectionHandler",
                    "HttpLayer/HttpStream (replay path)", "Http1Client", "HttpUpstreamProxy (upstream mode)",
@@ -34,7 +36,8 @@ ASSUMPTIONS = ["the moment a flow leaves the queue is observed at ReplayHandler 
                "origins always answer or fail within bounded virtual time (ReplayHandler has no read timeout)"]
 EXPECTED_PROBES = ["replay_response", "replay_error", "connect_failed", "stop_with_queued", "stop_while_inflight",
                    "unreplayable_rejected", "resubmitted_after_completion", "user_backup_flow_queued", "submit_while_inflight",
-                   "upstream_mode"]
+                   "upstream_mode", "intercepted_at_response_hook", "intercepted_at_error_hook",
+                   "intercepted_request_side", "intercept_killed"]
 
 UNREPLAYABLE = ["live", "intercepted", "no_content", "tcp", "udp", "dns", "websocket"]
 
@@ -76,11 +79,19 @@ def generate(rng, tier):
     if r.random() < 0.3:
         latency = {"hook": r.choice(["requestheaders", "request", "responseheaders", "response", "error"]),
                    "t": r.choice([0.001, 0.05, 1.0])}
+    # an addon that pauses replayed flows (flow.intercept()) in one hook and resumes or kills them after a virtual delay
+    intercept = None
+    if r.random() < 0.4:
+        intercept = {"hook": r.choice(["response", "response", "response", "error", "error", "request", "requestheaders",
+                                       "responseheaders"]),
+                     "then": r.choice(["resume", "resume", "resume", "kill"]),
+                     "after": r.choice([0.0, 0.01, 0.5, 3.0]),
+                     "only": r.choice([None, None, r.randrange(nflows)])}
     mode = "regular" if r.random() < 0.8 else "upstream:http://p.test:3128"
     # were the flows recorded by a proxy running in the mode it runs in now?  (client_conn.proxy_mode of a saved flow)
     recorded_same = mode == "regular" or r.random() < 0.8
     return {"family": "clientreplay", "eager": r.random() < 0.5, "mode": mode, "recorded_in_same_mode": recorded_same,
-            "flows": flows, "ops": ops, "latency": latency}
+            "flows": flows, "ops": ops, "latency": latency, "intercept": intercept}
 
 
 # ---------------------------------------------------------------------------
@@ -217,6 +228,15 @@ def execute(sc):
                 violate("overlap_requests", {"previous": "no_outcome_yet"},
                         f"replay of flow {i} started at t={t()} while the replay of flow {prev} had fired neither its "
                         f"response nor its error hook")
+            elif prev is not None:
+                # ... and its final hook has completed, interception included: the flow is not paused any more.
+                # (Flow.live is not consulted here: on the protocol-error path the layer clears it only when it
+                # processes the completion of the error hook, one step after ReplayHandler signals `done`.)
+                pf = flows[prev]
+                if pf.intercepted:
+                    violate("overlap_requests", {"previous": "still_intercepted"},
+                            f"replay of flow {i} started at t={t()} while flow {prev} is still intercepted in its "
+                            f"{M['started'][-1][2]} hook (not resumed yet)")
             M["active_done"] = False
             # the previous replay has cleaned up: SimNet holds no connection of an earlier replay any more
             check_exclusive(i, "start")
@@ -235,8 +255,32 @@ def execute(sc):
         # --- observation: hooks ------------------------------------------------------------------------
         lat = sc.get("latency")
 
+        icp = sc.get("intercept")
+
+        async def release(f, i, name):
+            await asyncio.sleep(icp["after"])
+            if not f.intercepted:
+                return
+            if icp["then"] == "kill" and f.killable:
+                probe("intercept_killed")
+                log.append((t(), "kill", i))
+                f.kill()
+            else:
+                log.append((t(), "resume", i))
+                f.resume()
+
         def policy(name, data):
-            if lat and name == lat["hook"] and id(data) in index_of:
+            i = index_of.get(id(data))
+            if i is None:
+                return None
+            if icp and name == icp["hook"] and icp.get("only") in (None, i) and not data.intercepted:
+                data.intercept()
+                w.net.fired("intercept")
+                log.append((t(), "intercept", name, i))
+                probe({"response": "intercepted_at_response_hook", "error": "intercepted_at_error_hook"}
+                      .get(name, "intercepted_request_side"))
+                w.loop.create_task(release(data, i, name), name=f"sim-release-{i}")
+            if lat and name == lat["hook"]:
                 w.net.fired("hook_latency")
                 return asyncio.sleep(lat["t"])
             return None
@@ -432,7 +476,12 @@ def execute(sc):
                 M["queue"] = []
                 log.append((t(), "stop", tuple(realq), inflight))
                 continue
-        # quiescence
+        # quiescence: every origin answers and every interception is released within bounded virtual time, so wait
+        # (pacing only) until the addon is idle, at most 3000 virtual seconds, then 60 more
+        for _ in range(600):
+            if cp.queue.empty() and cp.inflight is None:
+                break
+            await asyncio.sleep(5.0)
         await asyncio.sleep(60.0)
         left = [index_of.get(id(f)) for f in list(cp.queue._queue)]
         run["left"] = left
